@@ -370,7 +370,9 @@ func reifyGetField(
 		// None primitive types always get initialized even if it doesn't implement the
 		// Initializer interface, because nested types might implement the Initializer interface.
 		if value == nil {
-			value = &cfgNil{cfgPrimitive{cfg.ctx, cfg.metadata}}
+			// stands for the missing setting: errors below it name its path
+			ctx := context{parent: cfgSub{cfg}, field: name}
+			value = &cfgNil{cfgPrimitive{ctx, cfg.metadata}}
 		}
 	}
 
